@@ -46,7 +46,7 @@ def seeded():
         if d.get("kept") is False:
             rows.append(f"| `{name}` | {d['property']} | {cell(d.get('summary', ''), 240)} | — | *obsolete*: {cell(d.get('obsolete', ''), 200)} |")
             continue
-        det = ", ".join(d.get("detected_by") or []) or "**none**"
+        det = ", ".join(d.get("detected_by") or []) or ("**none** (out of reach, see below)" if d.get("out_of_reach") else "**none**")
         rows.append(f"| `{name}` | {d['property']} | {cell(d.get('summary', ''), 240)} | {cell(d.get('needs', ''), 200)} | {det} |")
     return "\n".join(rows)
 
